@@ -424,9 +424,11 @@ def run_job(job, ctx):
     schema = build()
     n = 0
     LK = ("rs", "ri", "rl", "rd", "r", "re", "rle")
-    for combo in itertools.product(*[la[k] for k in LK]):
+    for cn, combo in enumerate(itertools.product(*[la[k] for k in LK])):
         leaves = dict(zip(LK, combo))
         for si, side in enumerate(sides):
+            if tier != "thorough" and si >= 10 and cn % 4 and only is None:
+                continue        # quick: the later side inputs (item-level fields, sibling validators, free section) meet every 4th leaf combination
             tree = make_tree(leaves, flags, side)
             for prior in PRIORS:
                 for route in (routes if prior == "fresh" else routes[:1]):
